@@ -221,9 +221,9 @@ theorem makeRequest_hold {s s' : State} {L : List Nat} {c rid : Nat} {a : Attemp
       (rc.release = true → ∀ rs' : Resp, s'.resps[r]? = some rs' → rs'.conn = none)) := by
   have hcl : c < s.conns.length := h.bound c (mem_owned_lease s c L)
   rw [makeRequest_eq] at hm
-  have st1 := connRequest_steps s c rid a
-  have c1 := @connRequest_cls s (connRequest s c rid a).1 c rid a
-  generalize connRequest s c rid a = q at hm st1 c1
+  have st1 := connRequestH_steps s c rid a rc.badHeader
+  have c1 := @connRequestH_cls s (connRequestH s c rid a rc.badHeader).1 c rid a rc.badHeader
+  generalize connRequestH s c rid a rc.badHeader = q at hm st1 c1
   obtain ⟨s1, ek⟩ := q
   dsimp only at hm st1 c1
   have h1 : InvL s1 (c :: L) := steps_inv (fun x hx => by simp at hx; subst hx; simp) st1 h
